@@ -416,7 +416,7 @@ func TestC31(t *testing.T) {
 	rapid.Check(t, func(rt *rapid.T) {
 		v := th.PickVariant(rt, th.AllVariants...)
 		g := &c31gen{rt: rt, v: v}
-		o := model.GenOpts{Dense: rapid.IntRange(0, 2).Draw(rt, "dense") == 0}
+		o := model.GenOpts{Dense: rapid.IntRange(0, 1).Draw(rt, "dense") == 0}
 		if v.Wrapper && rec.Active(th.F28) {
 			o.Avoid = th.AvoidUnionBinary
 			g.avoid = th.AvoidUnionBinary
@@ -424,7 +424,7 @@ func TestC31(t *testing.T) {
 		e := model.GenTree(rt, v, o)
 		var j *model.Node
 		mode := "mutation"
-		if rapid.IntRange(0, 3).Draw(rt, "mode") == 0 {
+		if rapid.IntRange(0, 3).Draw(rt, "mode") == 0 || e.IsEmpty(true) {
 			mode = "independent"
 			j = model.GenTree(rt, v, o)
 		} else {
